@@ -12,6 +12,8 @@ import Wax.ExhFold
 import Wax.RuleS
 import Wax.Partition
 import Wax.Proofs.Exhaustive
+import Wax.Cmd.Frag
+import Wax.Unicode
 open Wax
 
 def unhex (s : String) : Str :=
@@ -129,10 +131,18 @@ def handle (line : String) : String :=
         let lo := match r.lowerB with | .bnd n => toString n | _ => "-"
         let hi := match r.upperB with | .ok (.bnd n) => toString n | _ => "-"
         s!"rng {lo} {hi}"
+  | ["SM", h, ph] =>
+    match parse (unhex h) with
+    | .err _ => "err"
+    | .ok t => if (specRe t).matchB drvSem (unhex ph) then "1" else "0"
+  | ["MM", h, ph] =>
+    match parse (unhex h) with
+    | .err _ => "err"
+    | .ok t => if (encodeTop t).matchB drvSem (unhex ph) then "1" else "0"
   | ["F", h] =>
     match parse (unhex h) with
     | .err _ => "err"
-    | .ok t => if F01 t then "in" else "out"
+    | .ok t => cmdF t
   | _ => "bad-op"
 
 partial def loop (h : IO.FS.Stream) : IO Unit := do
